@@ -8,9 +8,9 @@ from pbmon.oracle import fieldtrial as FT
 PROPERTY = "C14"
 NSHARDS = {"quick": 4, "thorough": 16}
 CLAUSES = {
-    "C14.records": 1500, "C14.truth": 300, "C14.h2": 100,
-    "C14.means": 600, "C14.invariance": 300, "C14.alignment": 1200, "C14.truebv": 200,
-    "C14.variance": 40, "C14.constancy": 20, "C14.independence": 60,
+    "C14.records": 10000, "C14.truth": 1500, "C14.h2": 800,
+    "C14.means": 1000, "C14.invariance": 1500, "C14.alignment": 4000, "C14.truebv": 2000,
+    "C14.variance": 100, "C14.constancy": 30, "C14.independence": 100,
 }
 HOOKS_REQUIRED = ["G_E_Phenotyping.phenotype calls", "TruePhenotyping.phenotype calls",
                   "MeanPhenotypicBreedingValue.estimate calls", "TrueBreedingValue.estimate calls", "set_h2/set_H2 calls"]
@@ -34,6 +34,7 @@ ASSUME = ["true genotypic value = intercept + dosage.u_a (+ heterozygous.u_d); i
           "population supplied; both the population (ddof 0) and the sample (ddof 1) form are accepted",
           "TrueBreedingValue is judged against intercept + dosage.u_a only for purely additive models; with dominance only labels and "
           "taxon-permutation equivariance are judged",
+          "a variance argument left None requests zero variance (the constructor's default)",
           "an estimate()/phenotype() call that raises is counted under 'raised' (DESIGN 2.1), not as a violation",
           "a variance bias smaller than the reported minimum detectable ratio is invisible to C14.variance"]
 
@@ -423,7 +424,9 @@ def case_flow(ctx, c):
                                    "u_d": M["u_d"], "raw": raw}, coords=coords)
             if not ok:
                 ctx.check("C14.h2", False, site, "var_err has one entry per trait", icls_h, witness={"var_err": got}, coords=coords)
-    var_env = as_vec(pt.var_env, nt); var_rep = as_vec(pt.var_rep, nt); var_err = as_vec(pt.var_err, nt)
+    # requested variances (None requests zero, the constructor default; the error variance after set_h2/set_H2 is the protocol's)
+    var_env = as_vec(venv, nt); var_rep = as_vec(vrep, nt)
+    var_err = as_vec(pt.var_err if hkind is not None else verr, nt)
     zero = (var_env == 0) & (var_rep == 0) & (var_err == 0)
     # ---- the trial
     try:
@@ -493,7 +496,8 @@ def case_flow(ctx, c):
     except Exception as e:
         ctx.raised("MeanPhenotypicBreedingValue.estimate (%s)" % ecls, e); return
     ctx.hook("MeanPhenotypicBreedingValue.estimate calls")
-    res = judge_estimate(ctx, bv, gt, means, fgroups, tr, colscale, ecls, gcls, coords, wit)
+    kcls = ecls if "all missing" in ecls else "group labels present or group column not named"
+    res = judge_estimate(ctx, bv, gt, means, fgroups, tr, colscale, kcls, gcls, coords, wit)
     # ---- invariance to the row order of the table
     fr2 = fr.iloc[g.permutation(len(fr))]
     if g.random() < 0.5:
@@ -501,7 +505,7 @@ def case_flow(ctx, c):
     try:
         bv2 = bvp.estimate(fr2, gt)
     except Exception as e:
-        ctx.violation("C14.invariance", "MeanPhenotypicBreedingValue.estimate", "row-shuffled table raises, original succeeds", ecls,
+        ctx.violation("C14.invariance", "MeanPhenotypicBreedingValue.estimate", "row-shuffled table raises, original succeeds", kcls,
                       what="estimate raised %s: %s on a row permutation of a table it accepted" % (type(e).__name__, str(e)[:120]), witness=wit, coords=coords)
         ctx.ok("C14.invariance"); return
     ctx.hook("MeanPhenotypicBreedingValue.estimate calls")
@@ -514,7 +518,7 @@ def case_flow(ctx, c):
         lab_ok = same_labels(bv.taxa, bv2.taxa)
     tl = numpy.array([FT.tol(s) for s in colscale])
     same = lab_ok and m1.shape == m2.shape and bool(((numpy.abs(m1 - m2) <= tl[None, :]) | (numpy.isnan(m1) & numpy.isnan(m2))).all())
-    ctx.check("C14.invariance", same, "MeanPhenotypicBreedingValue.estimate", "estimate(row-shuffled table) == estimate(table)", ecls,
+    ctx.check("C14.invariance", same, "MeanPhenotypicBreedingValue.estimate", "estimate(row-shuffled table) == estimate(table)", kcls,
               witness=dict(wit, first=m1, second=m2, taxa_first=bv.taxa, taxa_second=bv2.taxa), coords=coords)
 
 
@@ -552,7 +556,12 @@ def gen_design(g, tier):
     h = None
     if cls.startswith("via"):
         h = g.uniform(0.05, 0.95, nt) if g.random() < 0.5 else float(g.choice([0.2, 0.5, 0.9]))
-    return dict(n=n, p=p, nt=nt, nenv=nenv, nrep=nrep, scalar=scalar, cls=cls, var_env=ve, var_rep=vr, var_err=vx, h=h)
+    scalar_var = g.random() < 0.3
+    if scalar_var:      # the same request for every trait, passed as a plain number (None for zero half of the time)
+        ve, vr, vx = [numpy.full(nt, v[0]) for v in (ve, vr, vx)]
+    none_zero = bool(g.random() < 0.5)
+    return dict(n=n, p=p, nt=nt, nenv=nenv, nrep=nrep, scalar=scalar, cls=cls, var_env=ve, var_rep=vr, var_err=vx, h=h,
+                scalar_var=scalar_var, none_zero=none_zero)
 
 
 def ntests_of(D):
@@ -590,7 +599,11 @@ def run_trial(D, seed, mult, rkind):
         prng.seed(s); rng = None
     nenv = D["nenv"] * mult
     nrep = int(D["nrep"][0]) if D["scalar"] else numpy.tile(D["nrep"], mult)
-    pt = G_E_Phenotyping(mod, nenv=nenv, nrep=nrep, var_env=D["var_env"].copy(), var_rep=D["var_rep"].copy(), var_err=D["var_err"].copy(), rng=rng)
+    def arg(v):
+        if not D["scalar_var"]:
+            return v.copy()
+        return None if (v[0] == 0.0 and D["none_zero"]) else float(v[0])
+    pt = G_E_Phenotyping(mod, nenv=nenv, nrep=nrep, var_env=arg(D["var_env"]), var_rep=arg(D["var_rep"]), var_err=arg(D["var_err"]), rng=rng)
     truth = FT.genotypic_values(raw, beta, u_a, u_d)
     var_err = D["var_err"].copy()
     nset = 0
@@ -633,6 +646,7 @@ def case_stat(ctx, c, level):
     n, nt = D["n"], D["nt"]
     icls = "error variance fixed by a heritability" if D["h"] is not None else "explicit variances"
     ctx.sumnote("stat cases with rng: %s" % rkind)
+    ctx.sumnote("stat cases with variances passed as: %s" % ("numbers/None" if D["scalar_var"] else "per-trait arrays"))
     ctx.case("stat:%s | %s" % (D["cls"], "scalar nrep" if D["scalar"] else "per-environment nrep"),
              D["n"], D["p"], D["nenv"], D["nrep"], D["var_env"], D["var_rep"], D["var_err"], repr(D["h"]))
     site = "G_E_Phenotyping.phenotype"
@@ -706,8 +720,8 @@ def case_stat(ctx, c, level):
                                "requested var_err": var_err}, coords=coords)
 
 
-QUICK_FLOW, THOROUGH_FLOW = 3000, 96000
-QUICK_STAT, THOROUGH_STAT = 48, 480
+QUICK_FLOW, THOROUGH_FLOW = 3000, 80000
+QUICK_STAT, THOROUGH_STAT = 48, 400
 
 
 def plan(ctx):
